@@ -49,17 +49,21 @@ def _create_override_tuple(key, has_value = True):
   return retval
 
 def _make_config_parser(cfg_file, overrides, additional, remove, species, exclude_flag):
+  def item_key(over_tuple):
+    # Keys are compared without whitespace, as the configuration parser does: 'A - B' and 'A-B' name one item.
+    return (over_tuple.section, "".join(over_tuple.key.split()))
+
   override_dict = collections.OrderedDict()
   if not overrides is None:
     for override in itertools.chain.from_iterable(overrides):
       over_tuple = _create_override_tuple(override)
-      k = (over_tuple.section, over_tuple.key)
+      k = item_key(over_tuple)
       override_dict[k] = over_tuple
 
   if not remove is None:
     for override in itertools.chain.from_iterable(remove):
       over_tuple = _create_override_tuple(override, False)
-      k = (over_tuple.section, over_tuple.key)
+      k = item_key(over_tuple)
       override_dict[k] = over_tuple
 
   overrides_list = list(override_dict.values())
